@@ -2,7 +2,8 @@
 """Seeded-change bookkeeping.
   collect <ID> [name]   take the uncommitted diff + demo + meta from /tmp/seed/<ID> into /verif/seeded/<name or ID>/
   verify  <name>        (in the scratch worktree) tests still 701 passed; demo fails with the change, passes on /repo
-  run     <name> [props...]  apply the patch to /repo, run the checks (default: the seed's property), undo"""
+  run     <name> [props...]  apply the patch to /repo, run the checks (default: the seed's property), undo
+  runcopy <name> [props...]  the same on a scratch worktree (VERIF_REPO / VERIF_OUT), leaving /repo alone"""
 import json, os, re, shutil, subprocess, sys
 ROOT = os.path.dirname(os.path.dirname(os.path.abspath(__file__)))
 PY = '/venv/bin/python'
@@ -44,6 +45,36 @@ def verify(name, pid=None):
     return ok
 
 
+def run_copy(name, props, tier='quick'):
+    """Like run(), but on a scratch worktree of /repo (VERIF_REPO) with evidence redirected (VERIF_OUT): does not touch
+    /repo's working tree, so it can run while other checks are using /repo."""
+    d = os.path.join(ROOT, 'seeded', name)
+    props = props or [re.match(r'C\d+', name).group(0)]
+    wt = '/tmp/seedrun/' + name
+    sh('rm -rf %s; git -C /repo worktree prune' % wt)
+    r = sh('mkdir -p /tmp/seedrun && git -C /repo worktree add --detach %s HEAD' % wt)
+    assert r.returncode == 0, r.stdout
+    res = {}
+    try:
+        r = sh('git -C %s apply %s' % (wt, os.path.join(d, 'patch.diff')))
+        assert r.returncode == 0, r.stdout
+        for p in props:
+            out = sh('%s/check %s --tier %s' % (ROOT, p, tier), cwd=ROOT,
+                     env=dict(os.environ, VERIF_SEED='1', VERIF_REPO=wt, VERIF_OUT=wt + '.out'))
+            viol = [l for l in out.stdout.splitlines() if l.startswith('VIOLATION')]
+            what = [l.strip() for l in out.stdout.splitlines() if l.strip().startswith('what:')][:2]
+            res[p] = {'exit': out.returncode, 'violations': len(viol), 'first': what}
+            print(name, p, 'exit', out.returncode, 'VIOLATION lines', len(viol), what[:1])
+            if out.returncode == 2:
+                print(out.stdout[-1500:])
+    finally:
+        sh('git -C /repo worktree remove --force %s; rm -rf %s.out' % (wt, wt))
+    meta_p = os.path.join(d, 'meta.json')
+    meta = json.load(open(meta_p)) if os.path.exists(meta_p) else {}
+    meta.setdefault('checks_run', {}).update(res)
+    json.dump(meta, open(meta_p, 'w'), indent=1)
+
+
 def run(name, props):
     d = os.path.join(ROOT, 'seeded', name)
     props = props or [re.match(r'C\d+', name).group(0)]
@@ -75,3 +106,5 @@ if __name__ == '__main__':
         sys.exit(0 if verify(*sys.argv[2:]) else 1)
     elif cmd == 'run':
         run(sys.argv[2], sys.argv[3:])
+    elif cmd == 'runcopy':
+        run_copy(sys.argv[2], sys.argv[3:])
